@@ -28,7 +28,8 @@ Known(cb) == cb \in Push1 \cup Unary \cup Binary \cup Pop1 \cup TypePush \cup QB
              {"expr_call_end", "expr_inline_if", "expr_builtin_function3", "expr_nary", "expr_ternary", "type_bounded_int", "type_scalar", "type_duplicate",
               "type_pop", "proc_select", "type_array_of_size", "type_array_of_type", "decl_var", "decl_parameter", "decl_typedef", "proc_location",
               "decl_func_begin", "decl_external_func", "decl_init_list", "if_end", "return_statement", "instantiation_end", "proc_message", "proc_condition",
-              "proc_LSC_update", "type_struct", "struct_field", "iteration_begin", "iteration_end", "for_end", "instance_name_end", "expr_spawn"}
+              "proc_LSC_update", "type_struct", "struct_field", "iteration_begin", "iteration_end", "for_end", "instance_name_end", "expr_spawn",
+              "gantt_decl_select", "gantt_entry_select", "gantt_decl_end", "gantt_entry_end", "decl_progress"}
 
 (* a: sequence of argument values [n, s] as LR.tla passes them *)
 Eff(cb, a) ==
@@ -65,7 +66,10 @@ Eff(cb, a) ==
       [] cb = "type_scalar" -> E(1, -1, 0, 1, 0)
       [] cb = "type_duplicate" -> E(0, 0, 1, 1, 0)
       [] cb = "type_pop" -> E(0, 0, 1, -1, 0)
-      [] cb = "proc_select" -> E(0, 0, 1, -1, 0)
+      [] cb \in {"proc_select", "gantt_decl_select", "gantt_entry_select"} -> E(0, 0, 1, -1, 0)      \* addSelectSymbolToFrame takes the binder's type
+      [] cb = "gantt_decl_end" -> E(0, 0, 0, 0, -1)
+      [] cb = "gantt_entry_end" -> E(2, -2, 0, 0, -1)                                                 \* predicate and mapping
+      [] cb = "decl_progress" -> IF a[1].s = "true" THEN E(2, -2, 0, 0, 0) ELSE E(1, -1, 0, 0, 0)      \* measure, and the guard if there is one
       [] cb = "type_array_of_size" -> E(1, -1, 1, 0, 0)
       [] cb = "type_array_of_type" -> E(0, 0, 2, -1, 0)
       [] cb = "decl_var" -> IF a[2].s = "true" THEN E(1, -1, 1, -1, 0) ELSE E(0, 0, 1, -1, 0)    \* every declarator is preceded by type_duplicate and pops its copy
